@@ -259,6 +259,23 @@ def handle (j : Json) : R Json := do
         | .ok () => pure (Json.mkObj [("ok", jn 1), ("args", Json.arr (sig.args.map Json.str).toArray),
             ("unsupported", Json.arr (sig.unsupported.map fun (a, b) => Json.arr #[Json.str a, Json.str b]).toArray)])
         | .error e => pure (jerr e)
+  | "terms" =>
+      let pr := fun (p : Nat × Nat) => Json.arr #[jn p.1, jn p.2]
+      let tj := fun (t : Terms) => Json.mkObj [("out", pr t.out), ("grads", Json.arr (t.grads.map pr).toArray)]
+      match ← jstr j "op" with
+      | "linear" => pure (tj (linearTerms (← jnat j "fan_out") (← jnat j "fan_in") (← jnats j "lead")))
+      | "matmul" => pure (tj (matmulTerms (← jnat j "left") (← jnat j "inner") (← jnat j "right")))
+      | "conv1d" => pure (tj (conv1dTerms (← jnat j "fan_out") (← jnat j "fan_in") (← jnat j "kernel")
+            (← jnat j "out_size") (← jnat j "lead") (← jnat j "stride") (← jnat j "groups")))
+      | "add" => match ← jnatss j "shapes" with
+          | [a, b] => match broadcastShapes a b with
+            | some o => pure (tj (addTerms a b o))
+            | none => pure (jerr .runtimeError)
+          | _ => .error "add: need two shapes"
+      | "norm" => pure (tj (normTerms (← jnat j "norm_numel") (← jnat j "numel")))
+      | "embedding" => pure (tj (embeddingTerms (← jnat j "vocab") (← jnat j "batch")))
+      | "mse_loss" => pure (tj mseTerms)
+      | o => .error s!"terms: unknown op {o}"
   | "groups" => groupsCmd j
   | "zerostep" =>
       let lr ← jflt j "lr"; let wd ← jflt j "wd"; let p ← jflt j "p"
